@@ -20,7 +20,8 @@ pub fn cfg_for(own_id: &str, tier: Tier) -> GenCfg {
   }
   c.unboxable_recursive_enum = !excluded(id, "unboxable_recursive_enum");
   c.param_swap_tail_calls = !excluded(id, "param_swap_tail_calls");
-  c.big_ints = !crate::engine::findings::excluded(own_id, "big_ints");
+  // C02's recorded comparison-merge finding needs sums that wrap around: no extreme literals there either
+  c.big_ints = !crate::engine::findings::excluded(own_id, "big_ints") && !crate::engine::findings::excluded(own_id, "compare_after_add");
   c.single_variant_pointer_enum = !excluded(id, "single_variant_pointer_enum");
   c.rec_call_in_short_circuit = !excluded(id, "rec_call_in_short_circuit");
   c.tuple_typed_field = !excluded(id, "tuple_typed_field");
